@@ -504,17 +504,20 @@ pub fn run(args: &Args) -> i32 {
         }
     }
     let rep_start = Instant::now();
+    let on_memory_fs = scratch_base().starts_with("/dev/shm");
+    rep.cov("scratch_on_memory_fs", on_memory_fs);
     let mut cfgs = vec![];
-    let tier_mod = args.tier.pick(4usize, 1);
+    let tier_mod = if on_memory_fs { args.tier.pick(4usize, 1) } else { args.tier.pick(32usize, 1) };
     for rotation in 0..4u8 {
         let ss = scripts(rotation, args.tier);
         for (prefix, suffix) in [(true, true), (true, false), (false, true), (false, false)] {
             for max_files in [0usize, 1, 2, 3] {
                 for make_writer in [false, true] {
                     // quick: the full script set for prefix-only / unlimited and limit 2; a 1-in-4 subset elsewhere
-                    let full = true;
+                    // on a disk-backed scratch directory (no memory file system) the quick tier keeps a quarter
+                    let full = args.tier == Tier::Thorough || on_memory_fs;
                     for (i, s) in ss.iter().enumerate() {
-                        if full || i % 12 == (rotation as usize + max_files) % 12 {
+                        if full || i % 16 == (rotation as usize + max_files) % 16 {
                             cfgs.push(Cfg { rotation, prefix, suffix, max_files, make_writer, clock: s.clone(), backlog: 0, ctor: false });
                             if prefix && !suffix && max_files == 0 && i % 3 == 0 {
                                 cfgs.push(Cfg { rotation, prefix, suffix, max_files, make_writer, clock: s.clone(), backlog: 0, ctor: true });
